@@ -40,7 +40,7 @@ for f in files:
         continue
     sites = [json.loads(l) for l in subprocess.check_output([gomut, 'list', src], text=True).splitlines()]
     # error plumbing is not what the properties are about
-    sites = [s for s in sites if 'err' not in s['old'].lower() and 'debugf' not in s['old'] and 'Debugf' not in s['old'] and 'Progress' not in s['old']]
+    sites = [s for s in sites if 'err' not in (s['old'] + ' ' + s.get('ctx', '')).lower() and 'debugf' not in s['old'] and 'Debugf' not in s['old'] and 'Progress' not in s['old']]
     if not sites:
         continue
     step = max(1, len(sites) // args.per_file)
